@@ -47,6 +47,12 @@ instance : Monad (M σ) where
 @[inline] def modify (f : σ → σ) : M σ Unit := fun s => .ok () (f s)
 @[inline] def throw (e : Failure) : M σ α := fun s => .fail e s
 
+/-- a primitive table operation: fail with `g s` (state unchanged) or apply the update `u` -/
+@[inline] def guarded (g : σ → Option Failure) (u : σ → σ) : M σ Unit := fun s =>
+  match g s with
+  | some e => .fail e s
+  | none => .ok () (u s)
+
 /-- run `m`; if it fails keep the state it reached and report `false` (a swallowed error). -/
 @[inline] def swallow (m : M σ Unit) : M σ Bool := fun s =>
   match m s with
@@ -56,6 +62,11 @@ instance : Monad (M σ) where
 def forEach : List α → (α → M σ Unit) → M σ Unit
   | [], _ => M.pure ()
   | x :: xs, f => M.bind (f x) (fun _ => forEach xs f)
+
+/-- left fold with an accumulator -/
+def foldM {β : Type} (f : β → α → M σ β) : β → List α → M σ β
+  | b, [] => M.pure b
+  | b, x :: xs => M.bind (f b x) (fun b' => foldM f b' xs)
 
 /-- indexed loop -/
 def forEachIdx (l : List α) (f : Nat → α → M σ Unit) : M σ Unit :=
